@@ -76,7 +76,7 @@ func send(w *opdrv.World, d dynStrategy, router int, host, method, path string, 
 func observeEndpoint(w *opdrv.World, surface string, resp *opdrv.Resp) (accepted bool, identity, identitySub string, known, tokenUnknown bool) {
 	entries := w.Store.JournalSince(resp.SeqStart)
 	switch surface {
-	case "code", "refresh", "jwt-bearer":
+	case "code", "refresh", "jwt-bearer", "device-token":
 		toks := opdrv.DecodeTokens(resp)
 		if toks != nil && toks.Access != "" {
 			accepted = true
@@ -84,6 +84,19 @@ func observeEndpoint(w *opdrv.World, surface string, resp *opdrv.Resp) (accepted
 				identity, identitySub, known = rec.ClientID, rec.Subject, true
 			} else {
 				tokenUnknown = true
+			}
+		}
+	case "device-authz":
+		// served = a device authorization was stored; its client is the identity the request was served for
+		if dc := resp.Str("device_code"); resp.Status == 200 && dc != "" {
+			accepted = true
+			if d, ok := w.Store.DeviceRecord(dc); ok {
+				identity, known = d.ClientID, true
+			}
+		}
+		for _, e := range entries {
+			if e.Method == "StoreDeviceAuthorization" && e.Err == "" && !accepted {
+				accepted, identity, known = true, e.A, true
 			}
 		}
 	case "introspect":
